@@ -28,7 +28,7 @@ func init() {
 				"copy QueryLogEnabled and IPLogEnabled from the fields of the same name, and newRequestInfo re-initialises every " +
 				"field of the pooled request information on every path, so a request never inherits the previous request's profile.",
 			NotCovered: "JSON well-formedness of arbitrary field contents (encoding/json trusted); atomicity of O_APPEND writes in the kernel.",
-			Rules: map[string]string{"C15-R12": "no whole-struct copy of a dns.Msg (the copy shares Question and the RR slices with the logged request); pool constructors build fresh buffers", "C15-R11": "clone methods of filtering results copy every field (list and rule IDs are what gets logged)", "C15-R1": "recordQueryInfo gates and entry provenance", "C15-R2": "sole callers of log/billing sinks; record only after the write",
+			Rules: map[string]string{"C15-R13": "no named (non-error) result is hidden by a same-typed short variable declaration and then returned by name outside that scope (typed-AST rule over the whole repository)", "C15-R12": "no whole-struct copy of a dns.Msg (the copy shares Question and the RR slices with the logged request); pool constructors build fresh buffers", "C15-R11": "clone methods of filtering results copy every field (list and rule IDs are what gets logged)", "C15-R1": "recordQueryInfo gates and entry provenance", "C15-R2": "sole callers of log/billing sinks; record only after the write",
 				"C15-R3": "single append write from the pooled buffer", "C15-R4": "result switches exhaustive", "C15-R5": "every field of the entry is written",
 				"C15-R6": "the logging opt-in flags are copied name-to-name by the backend and file-cache conversions; the recycled request-information object (which carries the profile attribution) is fully re-initialised"},
 		}})
@@ -68,6 +68,13 @@ func runC15(c *an.Ctx) {
 	c.Inf("C15-R12", "whole-message copies", token.NoPos, "%d whole-struct copies of dns.Msg examined outside package dnsmsg", sharedNoShallowCopy(c, "C15-R12", "", "github.com/miekg/dns.Msg"))
 	if n := sharedPoolNewFresh(c, "C15-R12"); n < 10 {
 		c.Und("C15-R12", "pool constructors", token.NoPos, "only %d pool constructors found", n)
+	}
+	// ---- R13: a verdict computed into a named result is not lost to a shadowing := (a blocked query that is reported
+	// as not blocked is served, billed and logged)
+	if n := sharedShadowedResult(c, "C15-R13", "dnssvc", "access", "profiledb", "querylog", "billstat", "filter", "dnsmsg", "ecscache", "geoip", "agd", "backendpb", "connlimiter", "websvc", "cmd", "dnsserver"); n < 100 {
+		c.Und("C15-R13", "named results", token.NoPos, "only %d functions with named results found", n)
+	} else {
+		c.Ok("C15-R13", "no named result is hidden by a same-typed := and then returned by name", token.NoPos, "%d functions with named results examined", n)
 	}
 	c.Floor("C15-R7", 1)
 	mainPipeline(c, "C15-R7")
